@@ -6,9 +6,12 @@ model, what every Python call must deliver.
 All randomness comes from the `random.Random` passed in.
 
 Kinds of parameters
-  in      int long short size_t uint float double bool cstr string enum cls
-  out     int_out double_out string_out
-  inout   int_inout double_inout
+  in      int long short size_t uint float double bool cstr string enum cls pt ptref
+          ilist dlist strlist (list-mode arrays, each followed by an `implied` size parameter) vec (std::vector<int>)
+  out     int_out double_out string_out pt_out dvec_out (std::vector<double>)
+  inout   int_inout double_inout ilist_inout clsptr
+  implied (no Python argument: size of the named list parameter)
+Results  void int long double bool cstr string enum pt (struct by value) clsptr_res clsref_res (class objects) ivec
 Defaults only on int / long / double parameters (trailing, as C++ requires).
 """
 import yaml
@@ -18,9 +21,13 @@ CTYPE = {"int": "int", "long": "long", "double": "double", "short": "short", "si
          "uint": "unsigned int", "float": "float", "bool": "bool"}
 INTLIKE = ("int", "long", "short", "size_t", "uint", "enum")
 FLOATLIKE = ("double", "float")
+LISTKINDS = ("ilist", "dlist", "strlist", "vec", "ilist_inout")
+ELEM = {"ilist": "int", "dlist": "double", "strlist": "cstr", "vec": "int", "ilist_inout": "int"}
 
 
 def base_of(kind):
+    if kind in LISTKINDS or kind in ("pt_out", "dvec_out"):
+        return kind
     for suf in ("_out", "_inout"):
         if kind.endswith(suf):
             return kind[: -len(suf)]
@@ -28,15 +35,16 @@ def base_of(kind):
 
 
 class P:
-    def __init__(self, kind, name, default=None, cls=None):
+    def __init__(self, kind, name, default=None, cls=None, of=None):
         self.kind = kind
         self.name = name
         self.default = default
         self.cls = cls          # class name for kind "cls"
+        self.of = of            # implied: name of the list parameter whose size this is
 
     @property
     def intent(self):
-        if self.kind == "clsptr":
+        if self.kind in ("clsptr", "ilist_inout"):
             return "inout"          # a non-const class pointer is intent(inout) by default
         if self.kind.endswith("_out"):
             return "out"
@@ -46,13 +54,14 @@ class P:
 
     @property
     def visible(self):
-        return self.intent != "out"
+        return self.intent != "out" and self.kind != "implied"
 
     def base(self):
         return base_of(self.kind)
 
-    def decl(self, language):
+    def ctext(self, language, attrs):
         k, n = self.kind, self.name
+        a = lambda t: t if attrs else ""       # noqa: E731
         if k in CTYPE:
             s = "%s %s" % (CTYPE[k], n)
         elif k == "cstr":
@@ -65,55 +74,65 @@ class P:
             s = "const %s &%s" % (self.cls, n)
         elif k == "clsptr":
             s = "%s *%s" % (self.cls, n)
+        elif k == "pt":
+            s = "const Pt *%s" % n
+        elif k == "ptref":
+            s = "const Pt &%s" % n
+        elif k == "pt_out":
+            s = "Pt *%s%s" % (n, a(" +intent(out)"))
         elif k in ("int_out", "double_out"):
-            s = "%s *%s +intent(out)" % (self.base(), n)
+            s = "%s *%s%s" % (self.base(), n, a(" +intent(out)"))
         elif k in ("int_inout", "double_inout"):
-            s = "%s *%s +intent(inout)" % (self.base(), n)
+            s = "%s *%s%s" % (self.base(), n, a(" +intent(inout)"))
         elif k == "string_out":
-            s = "std::string &%s +intent(out)" % n
+            s = "std::string &%s%s" % (n, a(" +intent(out)"))
+        elif k == "ilist":
+            s = "const int *%s%s" % (n, a(" +rank(1)"))
+        elif k == "dlist":
+            s = "const double *%s%s" % (n, a(" +rank(1)"))
+        elif k == "ilist_inout":
+            s = "int *%s%s" % (n, a(" +rank(1)+intent(inout)"))
+        elif k == "strlist":
+            s = "char **%s%s" % (n, a(" +intent(in)"))
+        elif k == "vec":
+            s = "const std::vector<int> &%s" % n
+        elif k == "dvec_out":
+            s = "std::vector<double> &%s%s" % (n, a(" +intent(out)"))
+        elif k == "implied":
+            s = "int %s%s" % (n, a(" +implied(size(%s))" % self.of))
         else:
             raise AssertionError(k)
         if self.default is not None:
             s += " = %s" % fmt_default(self.default)
         return s
 
+    def decl(self, language):
+        return self.ctext(language, True)
+
     def cxx(self, language):
         """parameter in the subject header"""
-        k, n = self.kind, self.name
-        if k in CTYPE:
-            s = "%s %s" % (CTYPE[k], n)
-        elif k == "cstr":
-            s = "const char *%s" % n
-        elif k == "string":
-            s = "const std::string &%s" % n
-        elif k == "enum":
-            s = "%sColor %s" % ("enum " if language == "c" else "", n)
-        elif k == "cls":
-            s = "const %s &%s" % (self.cls, n)
-        elif k == "clsptr":
-            s = "%s *%s" % (self.cls, n)
-        elif k in ("int_out", "double_out", "int_inout", "double_inout"):
-            s = "%s *%s" % (self.base(), n)
-        elif k == "string_out":
-            s = "std::string &%s" % n
-        if self.default is not None:
-            s += " = %s" % fmt_default(self.default)
-        return s
+        return self.ctext(language, False)
 
 
 def fmt_default(v):
     return repr(v) if isinstance(v, float) else str(v)
 
 
+RESULT_DECL = {"void": "void", "int": "int", "long": "long", "double": "double", "bool": "bool",
+               "cstr": "const char *", "string": "const std::string", "enum": "Color", "pt": "Pt",
+               "ivec": "std::vector<int>"}
+
+
 class F:
-    def __init__(self, name, result, params, cls=None, static=False, ctor=False, label=None):
+    def __init__(self, name, result, params, cls=None, static=False, ctor=False, label=None, rescls=None):
         self.name = name
-        self.result = result      # void int long double bool cstr string
+        self.result = result      # see module docstring
         self.params = params
         self.cls = cls
         self.static = static
         self.ctor = ctor
         self.label = label or name
+        self.rescls = rescls      # class of a clsptr_res / clsref_res result
 
     def decl(self, language):
         args = ", ".join(p.decl(language) for p in self.params)
@@ -121,8 +140,12 @@ class F:
             args = "void"
         if self.ctor:
             return "%s(%s)" % (self.cls, args)
-        res = {"void": "void", "int": "int", "long": "long", "double": "double", "bool": "bool",
-               "cstr": "const char *", "string": "const std::string"}[self.result]
+        if self.result == "clsptr_res":
+            res = "%s *" % self.rescls
+        elif self.result == "clsref_res":
+            res = "const %s &" % self.rescls
+        else:
+            res = RESULT_DECL[self.result]
         if self.result == "string" and any(p.default is not None for p in self.params):
             # (`const std::string SHCXX_rv;` is declared before the default-argument switch and assigned
             #  inside it: the generated file does not compile - outside C03, see C05)
@@ -134,12 +157,19 @@ class F:
         return [p for p in self.params if p.visible]
 
 
-RESULT_VALUE = {"int": 7, "long": 8, "double": 2.5, "bool": True, "cstr": "rvc", "string": "rvs"}
+RESULT_VALUE = {"int": 7, "long": 8, "double": 2.5, "bool": True, "cstr": "rvc", "string": "rvs", "enum": 5,
+                "pt": (70, 0.5), "ivec": [2, 4, 6], "clsptr_res": 77, "clsref_res": 78}
 
 
 def out_value(p, idx, inval=None):
     """value the subject library stores into an out / inout parameter (idx = position in the parameter list)"""
     b = p.base()
+    if p.kind == "ilist_inout":
+        return [2 * int(x) for x in inval]
+    if p.kind == "pt_out":
+        return (60 + idx, 0.25)
+    if p.kind == "dvec_out":
+        return [0.5, 1.5]
     if p.intent == "inout":
         return inval + 1
     if b == "int":
@@ -154,7 +184,11 @@ def out_value(p, idx, inval=None):
 def trace_value(kind, v):
     """text the subject library writes for a received value"""
     b = base_of(kind)
-    if b in INTLIKE:
+    if b in LISTKINDS:
+        return "[" + ";".join(trace_value(ELEM[b], x) for x in v) + "]"
+    if b in ("pt", "ptref"):
+        return "%d/%.6g" % (int(v[0]), float(v[1]))
+    if b in INTLIKE or b == "implied":
         return "%d" % int(v)
     if b in FLOATLIKE:
         return "%.6g" % float(v)
@@ -168,33 +202,49 @@ def trace_value(kind, v):
 
 
 def _trace_stmt(f, language):
-    fmts, args = [], []
+    """C statements that append `label[flag](tok,tok,...);` to the trace"""
+    st = []
+    if f.cls and not f.static and not f.ctor:
+        st.append('SUBJ_TR("%s[%%d](", flag);' % f.label)
+    else:
+        st.append('SUBJ_TR("%s(");' % f.label)
+    first = True
     for p in f.params:
         if p.intent == "out":
             continue
         b = p.base()
+        sep = "" if first else ","
+        first = False
+        deref = "*" if (p.intent == "inout" and b not in ("clsptr", "ilist_inout")) else ""
+        n = p.name
         if b == "clsptr":
-            fmts.append("%d"); args.append(p.name + "->flag")
-            continue
-        deref = "*" if p.intent == "inout" else ""
-        if b in INTLIKE:
-            fmts.append("%ld"); args.append("(long)%s%s" % (deref, p.name))
+            st.append('SUBJ_TR("%s%%d", %s->flag);' % (sep, n))
+        elif b in ("ilist", "ilist_inout", "dlist", "strlist"):
+            size = [q.name for q in f.params if q.kind == "implied" and q.of == n][0]
+            fn = {"ilist": "subj_ilist", "ilist_inout": "subj_ilist", "dlist": "subj_dlist", "strlist": "subj_slist"}[b]
+            st.append('SUBJ_TR("%s"); %s(%s, %s);' % (sep, fn, n, size))
+        elif b == "vec":
+            st.append('SUBJ_TR("%s"); subj_ilist(%s.empty() ? (const int *) 0 : &%s[0], (int) %s.size());' % (sep, n, n, n))
+        elif b == "pt":
+            st.append('SUBJ_TR("%s%%d/%%.6g", %s->x, %s->y);' % (sep, n, n))
+        elif b == "ptref":
+            st.append('SUBJ_TR("%s%%d/%%.6g", %s.x, %s.y);' % (sep, n, n))
+        elif b in INTLIKE or b == "implied":
+            st.append('SUBJ_TR("%s%%ld", (long)%s%s);' % (sep, deref, n))
         elif b in FLOATLIKE:
-            fmts.append("%.6g"); args.append("(double)%s%s" % (deref, p.name))
+            st.append('SUBJ_TR("%s%%.6g", (double)%s%s);' % (sep, deref, n))
         elif b == "bool":
-            fmts.append("%d"); args.append("(int)%s" % p.name)
+            st.append('SUBJ_TR("%s%%d", (int)%s);' % (sep, n))
         elif b == "cstr":
-            fmts.append("%s"); args.append(p.name)
+            st.append('SUBJ_TR("%s%%s", %s);' % (sep, n))
         elif b == "string":
-            fmts.append("%s"); args.append(p.name + ".c_str()")
+            st.append('SUBJ_TR("%s%%s", %s.c_str());' % (sep, n))
         elif b == "cls":
-            fmts.append("%d"); args.append(p.name + ".flag")
-    head = f.label
-    if f.cls and not f.static and not f.ctor:
-        head += "[%d]"
-        args.insert(0, "flag")
-    text = 'SUBJ_TR("%s(%s);"%s);' % (head, ",".join(fmts), "".join(", " + a for a in args))
-    return text
+            st.append('SUBJ_TR("%s%%d", %s.flag);' % (sep, n))
+        else:
+            raise AssertionError(p.kind)
+    st.append('SUBJ_TR(");");')
+    return " ".join(st)
 
 
 def _body(f, language):
@@ -202,7 +252,15 @@ def _body(f, language):
     for idx, p in enumerate(f.params):
         if p.kind == "clsptr":
             continue
-        if p.intent == "inout":
+        if p.kind == "ilist_inout":
+            size = [q.name for q in f.params if q.kind == "implied" and q.of == p.name][0]
+            lines.append("{ int i_; for (i_ = 0; i_ < %s; i_++) %s[i_] *= 2; }" % (size, p.name))
+        elif p.kind == "pt_out":
+            v = out_value(p, idx)
+            lines.append("%s->x = %d; %s->y = %r;" % (p.name, v[0], p.name, v[1]))
+        elif p.kind == "dvec_out":
+            lines.append("%s.clear(); %s.push_back(0.5); %s.push_back(1.5);" % (p.name, p.name, p.name))
+        elif p.intent == "inout":
             lines.append("*%s = *%s + 1;" % (p.name, p.name))
         elif p.intent == "out":
             v = out_value(p, idx)
@@ -212,6 +270,8 @@ def _body(f, language):
                 lines.append("*%s = %s;" % (p.name, repr(v) if isinstance(v, float) else v))
     if f.ctor:
         pass
+    elif f.name == "getflag":
+        lines.append("return flag;")
     elif f.result != "void":
         v = RESULT_VALUE[f.result]
         if f.result == "bool":
@@ -220,13 +280,23 @@ def _body(f, language):
             lines.append('return "%s";' % v)
         elif f.result == "string":
             lines.append('return std::string("%s");' % v)
+        elif f.result == "enum":
+            lines.append("return GREEN;")
+        elif f.result == "pt":
+            lines.append("Pt r_; r_.x = %d; r_.y = %r; return r_;" % v)
+        elif f.result == "ivec":
+            lines.append("std::vector<int> r_; r_.push_back(2); r_.push_back(4); r_.push_back(6); return r_;")
+        elif f.result == "clsptr_res":
+            lines.append("static %s r_(%d); return &r_;" % (f.rescls, v))
+        elif f.result == "clsref_res":
+            lines.append("static %s r_(%d); return r_;" % (f.rescls, v))
         else:
             lines.append("return %s;" % v)
     return " ".join(lines)
 
 
 class PyLib:
-    """name, language, free functions, classes {name: [F]}, enum"""
+    """name, language, free functions, classes {name: [F]}, enum, struct Pt"""
     ENUM = [("RED", 0), ("GREEN", 5), ("BLUE", 6)]
 
     def __init__(self, name, language, functions, classes=None, enum=True):
@@ -235,6 +305,10 @@ class PyLib:
         self.functions = functions
         self.classes = classes or {}
         self.enum = enum
+        self.struct = language != "c"
+        for cname, fs in self.classes.items():
+            if not any(f.name == "getflag" for f in fs):
+                fs.append(F("getflag", "int", [], cls=cname, label=cname + ".getflag"))
 
     def header_name(self):
         return self.name + (".h" if self.language == "c" else ".hpp")
@@ -243,13 +317,16 @@ class PyLib:
         decls = []
         if self.enum:
             decls.append({"decl": "enum Color { RED, GREEN = 5, BLUE };"})
+        if self.struct:
+            decls.append({"decl": "struct Pt { int x; double y; };"})
         for cname, fs in self.classes.items():
             decls.append({"decl": "class %s" % cname,
                           "declarations": [{"decl": f.decl(self.language)} for f in fs] + [{"decl": "~%s()" % cname}]})
         for f in self.functions:
             decls.append({"decl": f.decl(self.language)})
         d = {"library": self.name, "cxx_header": self.header_name(), "language": self.language,
-             "options": {"wrap_python": True, "wrap_c": False, "wrap_fortran": False, "wrap_lua": False},
+             "options": {"wrap_python": True, "wrap_c": False, "wrap_fortran": False, "wrap_lua": False,
+                         "PY_array_arg": "list", "PY_struct_arg": "class"},
              "declarations": decls}
         return yaml.safe_dump(d, default_flow_style=False, sort_keys=False)
 
@@ -259,6 +336,7 @@ class PyLib:
                "#include <stdio.h>", "#include <string.h>"]
         if L != "c":
             out.append("#include <string>")
+            out.append("#include <vector>")
             out.append('extern "C" {')
         else:
             out.append("#include <stdbool.h>")
@@ -268,8 +346,16 @@ class PyLib:
             out.append("}")
         out.append("#define SUBJ_TR(...) do { size_t n_ = strlen(subj_trace_buf); "
                    "snprintf(subj_trace_buf + n_, sizeof(subj_trace_buf) - n_, __VA_ARGS__); } while (0)")
+        out.append('static inline void subj_ilist(const int *a, int n) { int i; SUBJ_TR("["); '
+                   'for (i = 0; i < n; i++) SUBJ_TR(i ? ";%d" : "%d", a[i]); SUBJ_TR("]"); }')
+        out.append('static inline void subj_dlist(const double *a, int n) { int i; SUBJ_TR("["); '
+                   'for (i = 0; i < n; i++) SUBJ_TR(i ? ";%.6g" : "%.6g", a[i]); SUBJ_TR("]"); }')
+        out.append('static inline void subj_slist(char **a, int n) { int i; SUBJ_TR("["); '
+                   'for (i = 0; i < n; i++) SUBJ_TR(i ? ";%s" : "%s", a[i]); SUBJ_TR("]"); }')
         if self.enum:
             out.append("enum Color { RED, GREEN = 5, BLUE };")
+        if self.struct:
+            out.append("struct Pt { int x; double y; };")
         for cname, fs in self.classes.items():
             out.append("class %s { public: int flag;" % cname)
             for f in fs:
@@ -311,29 +397,38 @@ class PyLib:
 
 
 # ---------------------------------------------------------------------------- generation
+NO_DEFAULT_WITH = ("string_out", "dvec_out", "pt_out", "vec", "ilist_inout")
+
+
 def rand_param(r, language, idx, cls=None, allow=("in", "out", "inout")):
-    kinds = ["int", "int", "long", "double", "bool", "cstr", "short", "size_t", "uint", "float"]
+    """one parameter (a list-mode array brings its implied size parameter along)"""
+    kinds = ["int", "int", "long", "double", "bool", "cstr", "short", "size_t", "uint", "float", "ilist", "dlist", "strlist"]
     if language != "c":
-        kinds += ["string", "string", "enum"]
+        kinds += ["string", "string", "enum", "pt", "ptref", "vec"]
         if cls:
             kinds.append("cls")
     if "out" in allow:
-        kinds += ["int_out", "double_out"] + (["string_out"] if language != "c" else [])
+        kinds += ["int_out", "double_out"] + (["string_out", "pt_out", "dvec_out"] if language != "c" else [])
     if "inout" in allow:
-        kinds += ["int_inout", "double_inout"]
+        kinds += ["int_inout", "double_inout", "ilist_inout"]
     k = r.choice(kinds)
-    return P(k, "a%d" % idx, cls=cls if k == "cls" else None)
+    n = "a%d" % idx
+    ps = [P(k, n, cls=cls if k == "cls" else None)]
+    if k in ("ilist", "dlist", "strlist", "ilist_inout"):
+        ps.append(P("implied", "n%d" % idx, of=n))
+    return ps
 
 
 def rand_function(r, language, name, cls_arg=None, nmax=4, in_cls=None, static=False):
     n = r.randrange(0, nmax + 1)
-    params = [rand_param(r, language, i, cls=cls_arg) for i in range(n)]
-    # keep at most 4 Python-visible parameters
-    while sum(1 for p in params if p.visible) > 4:
-        params.pop()
-    if language != "c" and not any(p.kind == "string_out" for p in params):
-        # (a std::string intent(out) local is declared inside the `case` block of the default-argument
-        #  switch and used after it: the generated file does not compile - outside C03, see C05)
+    params = []
+    for i in range(n):
+        if sum(1 for p in params if p.visible) >= 4:
+            break
+        params += rand_param(r, language, i, cls=cls_arg)
+    if language != "c" and not any(p.kind in NO_DEFAULT_WITH for p in params):
+        # (locals of these kinds are declared inside the `case` block of the default-argument switch and used
+        #  after it: the generated file does not compile - outside C03, see C05)
         nd = r.choice([0, 0, 1, 2, 3])
         for j in range(nd):
             if sum(1 for p in params if p.visible) >= 4:
@@ -341,7 +436,10 @@ def rand_function(r, language, name, cls_arg=None, nmax=4, in_cls=None, static=F
             k = r.choice(["int", "long", "double"])
             dv = r.choice([10, 20, 100]) + j if k != "double" else r.choice([2.5, 4.25]) + j
             params.append(P(k, "d%d" % j, default=dv))
-    res = r.choice(["void", "void", "int", "long", "double", "bool", "cstr"] + (["string"] if language != "c" else []))
+    res = r.choice(["void", "void", "int", "long", "double", "bool", "cstr"] +
+                   (["string", "enum", "pt", "ivec"] if language != "c" else []))
+    if res in ("pt", "ivec") and any(p.default is not None for p in params):
+        res = "int"
     return F(name, res, params, cls=in_cls, static=static, label=(in_cls + "." if in_cls else "") + name)
 
 
@@ -382,6 +480,23 @@ def fixed_cxx(name):
         F("useptr", "int", [P("clsptr", "c", cls=C), P("int", "i")]),
         F("outmid", "int", [P("int", "i"), P("double_out", "o"), P("int", "j", default=30), P("long", "k", default=40)]),
         F("nothing", "void", []),
+        # list-mode arrays (with implied sizes), vectors, struct-as-class, enum and class results
+        F("isum", "int", [P("ilist", "arr"), P("implied", "n", of="arr")]),
+        F("dsum", "double", [P("dlist", "arr"), P("implied", "n", of="arr"), P("int", "k", default=2)]),
+        F("iscale", "void", [P("ilist_inout", "arr"), P("implied", "n", of="arr"), P("int", "k")]),
+        F("nstr", "int", [P("strlist", "names"), P("implied", "n", of="names")]),
+        F("vsum", "int", [P("vec", "v"), P("int", "k")]),
+        F("vout", "void", [P("dvec_out", "w"), P("int", "n")]),
+        F("vret", "ivec", [P("int", "n")]),
+        F("two", "long", [P("ilist", "a"), P("implied", "na", of="a"), P("dlist", "b"), P("implied", "nb", of="b")]),
+        F("psum", "int", [P("pt", "p"), P("int", "k", default=2)]),
+        F("pref", "int", [P("ptref", "p")]),
+        F("pmk", "pt", [P("int", "c")]),
+        F("pout", "void", [P("pt_out", "p")]),
+        F("pboth", "int", [P("pt", "p"), P("pt_out", "q"), P("int_out", "o")]),
+        F("nextc", "enum", [P("enum", "c")]),
+        F("getobj", "clsptr_res", [], rescls=C),
+        F("getref", "clsref_res", [P("int", "i")], rescls=C),
         # overload sets with an overload whose parameters are ALL defaulted (zero required arguments)
         F("scale", "int", [P("int", "a", default=1), P("int", "b", default=2)], label="scale#0"),
         F("scale", "int", [P("string", "s")], label="scale#1"),
